@@ -237,7 +237,7 @@ def stage_mc(ctx, runs):
         if c["module"] == "MC_Sync.tla":
             # the intended design (all deviations off) must satisfy the monitor
             r = V.model_check(ctx.wd, name, c["module"], constants_smc(c, [ctx.prop], dev=()), ["Ok", "NoPanic"],
-                              constraints=["Stop", "Depth"], view="View", workers=10,
+                              constraints=["Stop", "Depth"], view="ViewD", workers=10,
                               timeout=c.get("timeout", 600))
         else:
             r = V.model_check(ctx.wd, name, c["module"], constants_mc(c, [ctx.prop]), ["Ok", "NoPanic"],
